@@ -85,7 +85,13 @@ def main():
       {"name": "tlc-graphs", "path": "spec/ReverseDFS.tla", "serves_properties": ["C07"],
        "kind_free_text": "graph generation (spec/Gen_Graphs.tla) and trace validation (spec/Trace_RevDFS.tla)"},
       {"name": "tlc-malformed", "path": "spec/Malformed.tla", "serves_properties": ["C09"],
-       "kind_free_text": "malformation generation (spec/Gen_MalMain.tla) and trace validation (spec/Trace_Malformed.tla)"}
+       "kind_free_text": "malformation generation (spec/Gen_MalMain.tla) and trace validation (spec/Trace_Malformed.tla)"},
+      {"name": "tlc-vi-machine", "path": "spec/VI.tla", "serves_properties": ["C01"],
+       "kind_free_text": "growth beyond the listed properties: reachability value iteration as an interval machine (MC_VI: tolerance lemma) with per-sweep trace validation (Trace_VI); ./run.py extra vi"},
+      {"name": "tlc-vir-machine", "path": "spec/VIR.tla", "serves_properties": ["C02", "C14"],
+       "kind_free_text": "growth beyond the listed properties: reward iteration (three quantities, one stopping test) validated sweep by sweep inside Trace_Solver (TraceRewardSweep); ./run.py extra vir"},
+      {"name": "suite-traces", "path": "vlib/suite_plugin.py", "serves_properties": ["C01", "C02", "C03", "C04", "C05", "C06", "C07", "C10", "C14"],
+       "kind_free_text": "the repository's own 57 tests, unedited, as a source of traces judged by Trace_Solver and Trace_RevDFS; ./run.py extra suite"}
      ],
      "checks": [],
      "notes": "run.py exit codes: 0 held / 1 VIOLATION / 2 machinery failure. Known findings: known_findings.json.",
